@@ -854,6 +854,21 @@ package fzf
 //@ func ChunkList.Snapshot trusted
 //@ modifies *cl
 
+// ansiLabelPrinter: a printer is returned only together with a positive display width - the fill printer repeats the
+// label until the line is full and advances by that width, so a zero width would never finish (C14-m8).
+//@ func Terminal.ansiLabelPrinter
+//@ property C14
+//@ requires t != nil && color != nil
+//@ ensures r0 != nil ==> r1 > 0
+//@ ensures r0 == nil ==> r1 == 0
+// (display widths come from the uniseg library: assumed non-negative)
+//@ func Terminal.displayWidth trusted
+//@ ensures result >= 0
+//@ package github.com/junegunn/fzf/src/util
+//@ func StringWidth trusted
+//@ ensures result >= 0
+//@ package github.com/junegunn/fzf/src
+
 // Terminal.output (what accept prints): one line per selected item when there is a selection, otherwise the current
 // item if there is one; the return value - which becomes the exit status 0 / 1 - says whether an item was printed.
 // Lines for --print-query, --expect and the print queue are not items.  (ghost nitems: item lines printed.)
